@@ -1688,6 +1688,28 @@ class Interp:
             return NONE_V if m == "find_map" else Val("iter", out)
         if m in ("cloned", "copied"):
             return Val("iter", [x.deref() for x in items])
+        if m in ("for_each", "try_for_each") and f is not None:
+            last = None
+            for x in items:
+                r_ = self.call_closure(cs, f, [x])
+                rd_ = r_.deref() if r_ is not None else UNKNOWN
+                if m == "try_for_each":
+                    nm_ = rd_.v if rd_.k == "variant" else (rd_.extra[1] if rd_.k == "adt" and rd_.extra else None)
+                    if nm_ in ("Err", "None", "Break"):
+                        return rd_
+                    if nm_ not in ("Ok", "Some", "Continue"):
+                        return UNKNOWN
+                    last = rd_
+            if m == "for_each":
+                return UNIT
+            if last is not None:
+                return last
+            dty_ = self.body.local_ty(cs.dest["l"]) if cs.dest is not None else ""
+            if dty_.startswith("core::result::Result<"):
+                return ok(UNIT)
+            if dty_.startswith("core::option::Option<"):
+                return some(UNIT)
+            return UNKNOWN
         if m in ("flatten", "flat_map"):
             out = []
             for x in items:
